@@ -300,8 +300,8 @@ def run(repo: Repo, ctx) -> None:
         for a in c.args:
             if norm(a) == 'node.value':
                 return True
-            if isinstance(a, ast.Call) and (call_name(a) or '').split(
-                    '.')[-1] == 'dollar_quote_literal':
+            if isinstance(a, ast.Call) and 'dollar_quote' in (
+                    call_name(a) or '').split('.')[-1]:
                 return True
         return False
     raw_nodes = [i for i in sorted(on_vc)
